@@ -14,11 +14,11 @@ use vrl::value::{Kind, Value};
 
 fn int_alphabet(tier: Tier) -> Vec<i64> {
     let mut s: BTreeSet<i64> = BTreeSet::new();
-    let r = if tier.thorough() { 300 } else { 64 };
+    let r = if tier.thorough() { 1000 } else { 300 };
     for i in -r..=r {
         s.insert(i);
     }
-    for k in [31u32, 32, 52, 53, 62] {
+    for k in [7u32, 8, 15, 16, 24, 31, 32, 33, 48, 52, 53, 54, 61, 62] {
         let p = 1i64 << k;
         for d in [-2, -1, 0, 1, 2] {
             s.insert(p + d);
@@ -324,7 +324,7 @@ pub fn run_c10(tier: Tier) -> Report {
     rep.set("evaluations", tot.evals);
     rep.set("operand_pairs", tot.pairs);
     rep.set("distinct_nontrivial", tot.distinct.len() as u64);
-    rep.set("rule", "(plus a cross-kind equality group of 19 values of 7 kinds) every ordered operand pair of each per-kind alphabet (integers: [-64,64] (thorough [-300,300]) ∪ 2^k±{0,1,2} ∪ i64 extremes; floats incl. ±0, ±inf, 2^53, subnormal; byte strings incl. non-UTF-8; timestamps; nested values) × 6 operators × {exact-kind env, any env}; distinct_nontrivial counts distinct (group, operator, verdict) classes observed");
+    rep.set("rule", "(plus a cross-kind equality group of 19 values of 7 kinds) every ordered operand pair of each per-kind alphabet (integers: [-300,300] (thorough [-1000,1000]) ∪ 2^k±{0,1,2} ∪ i64 extremes; floats incl. ±0, ±inf, 2^53, subnormal; byte strings incl. non-UTF-8; timestamps; nested values) × 6 operators × {exact-kind env, any env}; distinct_nontrivial counts distinct (group, operator, verdict) classes observed");
     rep
 }
 
